@@ -9,7 +9,7 @@ import z3
 from ..oblig import obligation
 from ..sym import bv64
 from ..models import vec_slice
-from .common import initial, mval
+from .common import initial, mval, T
 from . import batteries as B
 
 DRV_READ = r"TestDriver>::write_input_and_read_output$"
@@ -59,8 +59,8 @@ def handle_io(O):
         O.prove(p, upd if is_read else z3.Not(upd), "kind of driver call follows update_output",
                 dict(FACTS, what="call kind"), B.protocol_battery(), B.protocol_judge)
         # inputs passed verbatim: same slice object as parameter _2, and the driver is self.driver
-        given = p.args.fields[2].target
-        if ev.args[1].target is not given:
+        given = T(eng, p.args.fields[2])
+        if T(eng, ev.args[1]) is not given:
             fail(O, p, "handle_io passes a different input slice to the driver")
         res = ev.ret
         rtag = eng.tag_of(res, None)
@@ -100,7 +100,7 @@ def handle_io(O):
             ex = [e for e in p.trace[pos + 1:] if e.kind == "call"][1]
             answer = eng.field(eng.downcast(res, "Ok"), 0)          # Vec<OutputEntry>
             # set_outputs receives the slice of *this* answer; extract receives the same vector
-            if so.args[1].target is None or so.args[1].target.root != answer.root:
+            if so.tnames[1] is None or so.tnames[1][0] != answer.root:
                 fail(O, p, "set_outputs is not given this call's answer", extra=[rtag == bv64(0)])
             if ex.args[1].root != answer.root:
                 fail(O, p, "extract_output_values is not given this call's answer", extra=[rtag == bv64(0)])
@@ -202,8 +202,8 @@ def _next_core(O):
             inputs_vec = eng.field(row, m.fidx("EvaluatedRow", "inputs"))
             flag = eng.scalar(eng.field(row, m.fidx("EvaluatedRow", "update_output"), "bool"))
             # handle_io(self, &row.inputs[..], row.update_output)
-            slice_t = h.args[1].target
-            if slice_t is None or slice_t.root != inputs_vec.root or not slice_t.path.startswith(inputs_vec.path):
+            slice_t = h.tnames[1]
+            if slice_t is None or slice_t[0] != inputs_vec.root or not slice_t[1].startswith(inputs_vec.path):
                 fail(O, p, "handle_io is not given the row's own inputs", extra=cond)
             O.prove(p, eng.scalar(h.args[2]) == flag, "handle_io is given the row's update_output flag",
                     dict(FACTS, what="flag"), B.protocol_battery(), B.protocol_judge, extra=cond)
@@ -273,8 +273,8 @@ def try_new(O):
             fail(O, p, "default inputs are not generated before the first driver call")
             continue
         defaults = gd[0].ret
-        t = ev.args[1].target
-        if t is None or t.root != defaults.root:
+        t = ev.tnames[1]
+        if t is None or t[0] != defaults.root:
             fail(O, p, "the first driver call does not carry the default input vector")
         if ev.args[0].root != "arg2":
             fail(O, p, "the first call goes to a different driver")
@@ -302,7 +302,7 @@ def try_new(O):
         if len(boi) != 1 or boi[0] is not after[0]:
             fail(O, p, "build_output_indices is not the first step after the construction call", extra=[rtag == bv64(0)])
             continue
-        if boi[0].args[1].target is None or boi[0].args[1].target.root != answer.root:
+        if boi[0].tnames[1] is None or boi[0].tnames[1][0] != answer.root:
             fail(O, p, "build_output_indices does not see the construction answer", extra=[rtag == bv64(0)])
         btag = eng.tag_of(boi[0].ret, None)
         nwo = p.calls(r"new_with_outputs$")
@@ -313,7 +313,7 @@ def try_new(O):
         r3, _ = O.solve(list(p.pc) + [rtag == bv64(0), btag == bv64(0)], want_model=False)
         if r3 == "sat":
             n_ok += 1
-            if len(nwo) != 1 or nwo[0].args[0].target is None or nwo[0].args[0].target.root != answer.root:
+            if len(nwo) != 1 or nwo[0].tnames[0] is None or nwo[0].tnames[0][0] != answer.root:
                 fail(O, p, "the evaluation context is not initialised with the construction answer",
                      extra=[rtag == bv64(0), btag == bv64(0)])
                 continue
@@ -351,7 +351,7 @@ def default_write_input(O):
         if len(dc) != 1 or len(p.calls(DRV_ANY)) != 1:
             O.fail_path(p, "default write_input makes %d read calls" % len(dc), FACTS, sc, B.protocol_judge)
             continue
-        if dc[0].args[1].target is not p.args.fields[2].target or dc[0].args[0].target is not p.args.fields[1].target:
+        if T(eng, dc[0].args[1]) is not T(eng, p.args.fields[2]) or T(eng, dc[0].args[0]) is not T(eng, p.args.fields[1]):
             O.fail_path(p, "default write_input forwards different arguments", FACTS, sc, B.protocol_judge)
         rt = eng.tag_of(dc[0].ret, None)
         O.prove(p, eng.tag_of(p.ret, None) == rt, "default write_input succeeds iff the forwarded call did", FACTS, sc,
@@ -376,8 +376,8 @@ def default_entries(O):
             O.fail_path(p, "default closure does not ask the signal for its default exactly once", FACTS,
                         B.protocol_battery(), B.protocol_judge)
             continue
-        sig = dv[0].args[0].target
-        ent_sig = eng.field(p.ret, m.fidx("InputEntry", "signal")).target
+        sig = T(eng, dv[0].args[0])
+        ent_sig = T(eng, eng.field(p.ret, m.fidx("InputEntry", "signal")))
         if sig is not ent_sig:
             O.fail_path(p, "default entry's signal is not the one whose default was taken", FACTS,
                         B.protocol_battery(), B.protocol_judge)
